@@ -28,6 +28,7 @@ import (
 	"strconv"
 	"strings"
 	"sync"
+	"sync/atomic"
 	"testing"
 	"testing/synctest"
 	"time"
@@ -125,11 +126,42 @@ func (r *vRig) who() string {
 	return r.gids[g]
 }
 
+var vProgress int64 // bumped on every recorded event and step (watchdog)
+var vRunning int64  // id of the scenario being executed, 0 = none
+
 func (r *vRig) emit(ev vEvent) {
+	atomic.AddInt64(&vProgress, 1)
 	r.mu.Lock()
 	ev["sc"] = r.sc
 	r.events = append(r.events, ev)
 	r.mu.Unlock()
+}
+
+// vWatchdog runs outside every bubble, in real time.  Under the fake clock a
+// scenario takes milliseconds; if nothing is recorded for `limit` of real time
+// while a scenario runs, goroutines of the broker are stuck in a way the fake
+// clock cannot resolve (typically: blocked on a mutex that is held across a
+// blocking channel operation).  The stacks are written out and the process
+// exits with status 7; the caller confirms by an isolated re-run.
+func vWatchdog(out *os.File, limit time.Duration) {
+	last, since := int64(-1), time.Now()
+	for {
+		time.Sleep(500 * time.Millisecond)
+		p := atomic.LoadInt64(&vProgress)
+		sc := atomic.LoadInt64(&vRunning)
+		if p != last || sc == 0 {
+			last, since = p, time.Now()
+			continue
+		}
+		if time.Since(since) > limit {
+			buf := make([]byte, 1<<20)
+			n := runtime.Stack(buf, true)
+			b, _ := json.Marshal(vEvent{"ev": "stuck", "sc": sc, "stacks": string(buf[:n])})
+			out.Write(append(b, '\n'))
+			out.Sync()
+			os.Exit(7)
+		}
+	}
 }
 
 func (r *vRig) probe() bool {
@@ -539,6 +571,7 @@ func (r *vRig) pending() []string {
 
 func (r *vRig) runSteps(sc *vScenario) {
 	for _, st := range sc.Steps {
+		atomic.AddInt64(&vProgress, 1)
 		if r.diverged != "" {
 			break
 		}
@@ -709,6 +742,8 @@ func (r *vRig) runScenario(t *testing.T, sc *vScenario) (events []vEvent, hung b
 		r.ctx.metrics.printMetrics()
 		r.ctx.metrics.zeroMetrics()
 	}
+	atomic.StoreInt64(&vRunning, int64(sc.ID))
+	defer atomic.StoreInt64(&vRunning, 0)
 	r.emit(vEvent{"ev": "reset", "fresh": sc.Fresh, "mode": sc.Mode, "rollover": sc.Rollover && !sc.Fresh})
 	func() {
 		defer func() {
@@ -772,6 +807,11 @@ func TestVerifBrokerScenarios(t *testing.T) {
 	}
 	defer f.Close()
 	enc := json.NewEncoder(f)
+	limit := 20 * time.Second
+	if v, err := time.ParseDuration(os.Getenv("VERIF_WATCHDOG")); err == nil && v > 0 {
+		limit = v
+	}
+	go vWatchdog(f, limit)
 	rig := vNewRig()
 	first := true
 	for _, line := range bytes.Split(data, []byte("\n")) {
